@@ -482,14 +482,19 @@ where
                         pd_key: None,
                         vc_key: None,
                     };
+                    // the planner is CONSTRUCTED with other parameter values (a 20 times shorter step, the
+                    // complementary goal bias, half the radius) and gets the intended ones assigned to its public
+                    // fields after setup: whatever was derived from the old values must not survive
+                    let params0 = Params { maxd: 0.05 * params.maxd, bias: if params.bias == 0.0 { 1.0 } else if params.bias == 1.0 { 0.0 } else { 1.0 - params.bias },
+                                           radius: 0.5 * params.radius, build_ticks: params.build_ticks, seed: params.seed };
                     let calls: Vec<Call> = if kind == Kind::Prm {
-                        vec![Call::Setup(0), Call::Construct, Call::Solve(5), Call::Construct, Call::Solve(5)]
+                        vec![Call::Setup(0), Call::SetParams(params.clone()), Call::Construct, Call::Solve(5), Call::Construct, Call::Solve(5)]
                     } else {
-                        vec![Call::Setup(0), Call::Solve(iters), Call::Solve(iters / 4)]
+                        vec![Call::Setup(0), Call::SetParams(params.clone()), Call::Solve(iters), Call::Solve(iters / 4)]
                     };
                     let cfg = RunCfg::default();
-                    let recs = run_history(kind, &params, space.clone(), &[mk_problem()], &calls, &cfg);
-                    let recs2 = run_history(kind, &params, space.clone(), &[mk_problem()], &calls, &cfg);
+                    let recs = run_history(kind, &params0, space.clone(), &[mk_problem()], &calls, &cfg);
+                    let recs2 = run_history(kind, &params0, space.clone(), &[mk_problem()], &calls, &cfg);
                     let geom = RealGeom { space: space.clone(), clearance: sc.clearance.clone(), label: label.clone() };
                     let gsp = space.clone();
                     let gc = sc.goal.clone();
@@ -500,7 +505,7 @@ where
                         goal_sat: Box::new(move |s: &SP::StateType| gsp.distance(s, &gc) <= gr),
                         feas: sc.feas,
                     }];
-                    let mut an = Annot::new(&geom, kind, params.clone());
+                    let mut an = Annot::new(&geom, kind, params0.clone());
                     an.c04_precondition = label != "rv2-overhang";
                     an.reset(run, desc.clone());
                     for r in &recs {
@@ -515,7 +520,7 @@ where
                     // a third same-seed instance on a slower clock (C07, timing independence)
                     {
                         let cfg3 = RunCfg { tick_query: 1, ..RunCfg::default() };
-                        let recs3 = run_history(kind, &params, space.clone(), &[mk_problem()], &calls, &cfg3);
+                        let recs3 = run_history(kind, &params0, space.clone(), &[mk_problem()], &calls, &cfg3);
                         let mut tids = HashMap::new();
                         if let (Some(a), Some(b)) = (vharness::timing::epochs(&recs, &mut tids), vharness::timing::epochs(&recs3, &mut tids)) {
                             an.out.push(json!({"ev": "timing", "a": a, "b": b}));
@@ -523,17 +528,17 @@ where
                     }
                     // RRT* versus RRT on the same seed / problem / budget (C17)
                     if kind == Kind::Star {
-                        let rr = run_history(Kind::Rrt, &params, space.clone(), &[mk_problem()], &calls[..2], &cfg);
+                        let rr = run_history(Kind::Rrt, &params0, space.clone(), &[mk_problem()], &calls[..3], &cfg);
                         let pushes = |rs: &[CallRec<SP::StateType>]| -> Vec<Vec<u64>> {
-                            match &rs[1].snap {
+                            match &rs[2].snap {
                                 Snapshot::Trees(t) => t[0].iter().map(|n| n.0.bits()).collect(),
                                 _ => vec![],
                             }
                         };
-                        let (a, b) = (pushes(&recs[..2]), pushes(&rr));
-                        let (oka, okb) = (matches!(recs[1].outcome, Outcome::Path(_)), matches!(rr[1].outcome, Outcome::Path(_)));
+                        let (a, b) = (pushes(&recs[..3]), pushes(&rr));
+                        let (oka, okb) = (matches!(recs[2].outcome, Outcome::Path(_)), matches!(rr[2].outcome, Outcome::Path(_)));
                         let (mut same_end, mut ls, mut lr) = (true, 0.0, 0.0);
-                        if let (Outcome::Path(ps), Outcome::Path(pr)) = (&recs[1].outcome, &rr[1].outcome) {
+                        if let (Outcome::Path(ps), Outcome::Path(pr)) = (&recs[2].outcome, &rr[2].outcome) {
                             same_end = ps.last().map(|s| s.bits()) == pr.last().map(|s| s.bits());
                             ls = path_len(&space, ps);
                             lr = path_len(&space, pr);
@@ -541,6 +546,39 @@ where
                         let u = geom.space.get_longest_valid_segment_length() / vharness::tol::UNITS_PER_LVS;
                         an.out.push(json!({"ev": "pair", "nodes_equal": a == b, "ok_star": oka, "ok_rrt": okb, "same_end": same_end,
                                            "len_star": (ls / u).round() as i64, "len_rrt": (lr / u).round() as i64}));
+                    }
+                    // PRM, follow-up query from a start that (nearly) coincides with a milestone of the roadmap
+                    // just built: same run again (deterministic), then set_problem_definition and solve
+                    if kind == Kind::Prm {
+                        if let Some(Snapshot::Roadmap(rm)) = recs.get(2).map(|r| r.snap.clone()) {
+                            if let Some((m0, _)) = rm.first() {
+                                let mut s2 = m0.clone();
+                                space.interpolate(m0, &sc.goal, 1e-13, &mut s2);
+                                let p2 = Problem {
+                                    starts: vec![s2.clone()],
+                                    goal: Rc::new(BallGoal { space: space.clone(), center: sc.goal.clone(), r: sc.goal_r }) as Rc<dyn HGoal<SP::StateType>>,
+                                    checker: {
+                                        let cl = cl.clone();
+                                        Rc::new(move |s: &SP::StateType| cl(s) > 0.0)
+                                    },
+                                    pd_key: None,
+                                    vc_key: None,
+                                };
+                                let calls2 = vec![Call::Setup(0), Call::SetParams(params.clone()), Call::Construct, Call::Solve(5), Call::SetPd(1), Call::Solve(5)];
+                                let recs4 = run_history(kind, &params0, space.clone(), &[mk_problem(), p2], &calls2, &cfg);
+                                let gsp2 = space.clone();
+                                let gc2 = sc.goal.clone();
+                                let mut pinfo2 = pinfo;
+                                pinfo2.push(ProblemInfo { start: Some(s2.clone()), starts: vec![s2], goal_sat: Box::new(move |s: &SP::StateType| gsp2.distance(s, &gc2) <= gr), feas: 2 });
+                                let mut an2 = Annot::new(&geom, kind, params0.clone());
+                                an2.c04_precondition = an.c04_precondition;
+                                an2.reset(run, desc.clone());
+                                for r in &recs4 {
+                                    an2.call(r, &pinfo2);
+                                }
+                                an.out.extend(an2.out);
+                            }
+                        }
                     }
                     let shard = ctx.nruns % ctx.outs.len();
                     for ev in &an.out {
